@@ -59,6 +59,10 @@ def meshes(ctx, rng):
     out = []
     xs = np.sort(np.concatenate([[0., 1.], rng.random(4)]))
     out.append(('MeshLine1', fe.MeshLine(xs)))
+    # cells traversed in DESCENDING direction (negative Jacobian): points listed right to left, reversed connectivity, mirrored mesh
+    out.append(('MeshLine1-descending', fe.MeshLine(xs[::-1].copy())))
+    out.append(('MeshLine1-reversed-t', fe.MeshLine1(xs[None, :].copy(), np.array([np.arange(1, len(xs)), np.arange(0, len(xs) - 1)]))))
+    out.append(('MeshLine1-mirrored', fe.MeshLine(xs).mirrored((1.,))))
     out.append(('MeshTri1', _jiggle(fe.MeshTri.init_sqsymmetric().refined(1), rng, 0.4)))
     out.append(('MeshTri1-unsorted', fe.MeshTri(np.array([[0., 1., 0., 1.3], [0., 0., 1., 1.1]]), np.array([[1, 3], [0, 1], [2, 2]]), sort_t=False)
                 if _accepts_sort_t(fe.MeshTri) else _jiggle(fe.MeshTri().refined(1), rng, 0.3)))
